@@ -75,6 +75,17 @@ type c16Interval struct {
 
 func runC16(t *testing.T, sc c16Scenario) verdict { return runC16With(t, sc, false) }
 
+// runC16Init: the same schedules, but every fan's analysis is started through the controller's own
+// RunInitializationSequence (what `fan2go fan init` and Run call) instead of through Run - so fans of
+// every kind and capability go through it, not only those for which Run decides to analyse.
+func runC16Init(t *testing.T, sc c16Scenario) verdict {
+	c16Direct = true
+	defer func() { c16Direct = false }()
+	return runC16With(t, sc, false)
+}
+
+var c16Direct bool
+
 // runC16With runs the schedule either in a synctest bubble (virtual time, channel based init lock from
 // the overlay) or - realTime - on the wall clock against the tree's own lock implementation.
 func runC16With(t *testing.T, sc c16Scenario, realTime bool) verdict {
@@ -112,8 +123,15 @@ func runC16With(t *testing.T, sc c16Scenario, realTime bool) verdict {
 			r.Curve.Rebase(t0)
 			ctl := controller.NewFanController(pers, r.Fan, sim.LoopSpec{Kind: "direct"}.Build(), 200*time.Millisecond)
 			delay := time.Duration(sc.Fans[i].DelayMs) * time.Millisecond
+			direct := c16Direct
 			go func() {
 				time.Sleep(delay)
+				if direct {
+					err := ctl.RunInitializationSequence()
+					r.Curve.MarkFirstEval()
+					done <- err
+					return
+				}
 				done <- ctl.Run(ctx)
 			}()
 		}
@@ -213,6 +231,16 @@ func runC16With(t *testing.T, sc c16Scenario, realTime bool) verdict {
 }
 
 func TestC16(t *testing.T) { runProperty(t, "C16", genC16, runC16) }
+
+func TestC16Init(t *testing.T) {
+	runProperty(t, "C16", func(t *rapid.T) c16Scenario {
+		sc := genC16(t)
+		for i := range sc.Fans {
+			sc.Fans[i].DataOnly = false
+		}
+		return sc
+	}, runC16Init)
+}
 
 // TestC16RT is the real-time cross-check (thorough tier): the same oracle on the wall clock, in a test
 // binary built WITHOUT the channel-mutex overlay, i.e. against whatever lock the tree itself uses.
